@@ -47,6 +47,8 @@ def load_overlays():
                 t['extra'] += v['extra']
                 t['item_extra'].update(v['item_extra'])
                 t['module'] = t['module'] or v['module']
+                if v.get('flavours'):
+                    t['flavours'] = v['flavours']
             else:
                 files[k] = v
         units += u
@@ -79,7 +81,8 @@ def build_extractor_config(flavour, cfg, files, units, bare=()):
     fl = FLAVOURS[flavour]
     eff_path = dict(cfg['effects_path'])
     eff_method = dict(cfg['effects_method'])
-    active = [u for u in units if (u['flavours'] is None or flavour in u['flavours'])]
+    active = [u for u in units if (u['flavours'] is None or flavour in u['flavours'])
+              and (not files.get(u['file'], {}).get('flavours') or flavour in files[u['file']]['flavours'])]
     for u in active:
         if u['world'] == 'none':
             continue
@@ -97,6 +100,8 @@ def build_extractor_config(flavour, cfg, files, units, bare=()):
     eff_path = {k: v for k, v in eff_path.items() if v != 'AMBIGUOUS'}
     fcfg = {}
     for fname, f in files.items():
+        if f.get('flavours') and flavour not in f['flavours']:
+            continue
         fcfg[fname] = {'keep_items': sorted(set(f['keep'])), 'units': [], 'drop_uses': f['drop_use'],
                        'item_extra': f['item_extra']}
     for u in active:
@@ -137,7 +142,7 @@ def assemble(flavour, cfg, files, active_units, ext_out, auto_weak=()):
     parts.append('#![feature(allocator_api, pattern)]\n')
     parts.append('use vstd::prelude::*;\n')
     parts.append(open(os.path.join(VERIF, 'shims', 'macros.rs')).read())
-    parts.append('verus! {\n')
+    parts.append('verus! {\n// ASSUMED: 64-bit target (usize is 8 bytes)\nglobal size_of usize == 8;\n')
     # spec library
     parts.append('pub mod spec {\n#[allow(unused_imports)] use vstd::prelude::*;\n')
     for p in cfg['spec_files']:
